@@ -193,8 +193,11 @@ PRODUCERS = ["limit_fanin", "limit_fanout", "ternary", "miter", "half_adder", "f
              "remove_unloaded", "remove_unloaded", "sequential_unroll", "sequential_unroll"]
 
 
-def gen_produced(rng):
-    fn = rng.choice(PRODUCERS)
+def gen_produced(rng, k=None):
+    # stratified: every producer appears in every block of len(PRODUCERS) cases (a uniform draw left some producers, and the
+    # pass-through-pin variant of the composition producers, out of a quick run: seeded C20-s6 was then missed)
+    fn = rng.choice(PRODUCERS) if k is None else PRODUCERS[k % len(PRODUCERS)]
+    passthrough = rng.random() < 0.4 if k is None else (k // len(PRODUCERS) + k % len(PRODUCERS) // 2) % 2 == 1
     case = {"fn": "produced", "producer": fn}
     if fn in ("limit_fanin", "limit_fanout", "ternary", "miter", "copy", "relabel"):
         case["circuit"] = lib.rand_dag(rng, rng.randint(1, 4), rng.randint(1, 6), max_fanin=5,
@@ -218,7 +221,7 @@ def gen_produced(rng):
         for n in child["nodes"]:
             n[2] = False
         child["nodes"][-1][2] = True
-        if rng.random() < 0.4:
+        if passthrough:
             child["nodes"][0][2] = True          # a pass-through pin: input that is also marked as output
         case["child"] = lib.add_flop(rng, child, inst=rng.choice(["r0", "reg_a", "ff"]), on=child["nodes"][-1][0], clk="k0", bbname="ff")
         case["inst"] = rng.choice(["u", "acc", "u_1"])
@@ -267,7 +270,7 @@ def gen_produced(rng):
 def generate(rng, tier):
     n = 240 if tier == "quick" else 3000
     out = [gen_raw(rng) for _ in range(n // 4)] + [gen_near_clean(rng) for _ in range(n)]
-    out += [gen_produced(rng) for _ in range(n // 2)]
+    out += [gen_produced(rng, k) for k in range(n // 2)]
     return out
 
 
@@ -328,7 +331,9 @@ def impl(case):
             if _lint(par) != "ok" or _lint(ch) != "ok":
                 return {"producer_exc": "precondition"}
             ins, outs = sorted(ch.inputs()), sorted(ch.outputs())
-            srcs = sorted(par.inputs())
+            # sources: gates of the parent first, then its inputs (a pass-through pin wired to a *gate* is what shows a swapped
+            # input/output resolution: the gate silently gains an operand and the pin stays undriven; seeded C20-s6)
+            srcs = sorted(n for n in par.nodes() if par.type(n) not in ("input", "0", "1", "x")) + sorted(par.inputs())
             conns = {i: srcs[k % len(srcs)] for k, i in enumerate(ins)}
             for k, o in enumerate(outs):
                 if o not in conns:             # a pass-through pin is attached as an input only
